@@ -140,8 +140,11 @@ class HostWorld:
             self._release.set()
         self.loop.settle()
 
-    def start_reset(self):
-        """the real `ZBOSS.reset()`; the serial re-open (`connect`) is replaced by a fresh protocol on a recording transport"""
+    def start_reset(self, real_connect=False, fail_first=0):
+        """the real `ZBOSS.reset()`.  By default the serial re-open (`connect`) is replaced by a fresh protocol on a
+        recording transport; with `real_connect` the real `ZBOSS.connect()` / `uart.connect()` run and only
+        `zigpy.serial.create_serial_connection` is substituted - its first `fail_first` calls raise `OSError` (the
+        device node is not back yet), later ones hand the recording transport to a protocol made by the real factory."""
         from zigpy_zboss import uart
         import zigpy_zboss.config as conf
         world = self
@@ -153,7 +156,24 @@ class HostWorld:
             self.api._uart = p
             self.p = p
             self.log.append("RECONNECTED")
-        self.api.connect = connect
+        if not real_connect:
+            self.api.connect = connect
+        else:
+            import zigpy.serial
+            self._opens = 0
+
+            async def create_serial_connection(loop, protocol_factory, url, **kw):
+                world._opens += 1
+                if world._opens <= fail_first:
+                    world.log.append("OPENFAILED")
+                    raise OSError(2, "could not open port " + str(url))
+                p = protocol_factory()
+                p.connection_made(world.tr)
+                world.p = p
+                world.log.append("RECONNECTED")
+                return world.tr, p
+            self._serial_patch = mock.patch.object(zigpy.serial, "create_serial_connection", create_serial_connection)
+            self._serial_patch.start()
 
         async def runner():
             self.cur.set(99)
@@ -175,6 +195,8 @@ class HostWorld:
         try:
             self.loop.settle()
         finally:
+            if hasattr(self, "_serial_patch"):
+                self._serial_patch.stop()
             self.loop.close()
             asyncio.set_event_loop(None)
 
